@@ -381,6 +381,14 @@ def shapes(tier, seed):
     for utd in (False, True):
         for picks in ("0,1", "2,3", "3,0,2") + (("1,1", "0,1,2,3") if tier == "thorough" else ()):
             out.append(Shape(f"ansatz/ADAPT/{picks}/utd{int(utd)}", h_ansatz, dict(which=f"ADAPT:{picks}", utd=utd), modules=MODS, max_paths=64))
+    # high-spin references (n_alpha - n_beta = 2): the reference itself must sit in the right S_z sector
+    for which in ("UCCGD", "UCCSD", "UpCCGSD"):
+        for utd in (False, True):
+            out.append(Shape(f"ansatz/{which}/4q/triplet/utd{int(utd)}", h_ansatz,
+                             dict(which=which, n_mos=2, n_electrons=2, spin=2, utd=utd, signs=(1, -1)), modules=MODS, max_paths=64))
+        if tier == "thorough":
+            out.append(Shape(f"ansatz/{which}/6q/triplet/utd0", h_ansatz,
+                             dict(which=which, n_mos=3, n_electrons=2, spin=2, utd=False, signs=(1, -1)), modules=MODS, max_paths=64))
     out.append(Shape("ansatz/UCC1", h_ansatz, dict(which="UCC1"), modules=MODS))
     out.append(Shape("ansatz/UCC3", h_ansatz, dict(which="UCC3"), modules=MODS))
     out.append(Shape("canary/ansatz/UCCSD", h_ansatz, dict(which="UCCSD", canary=True), modules=MODS, canary=True, max_paths=64))
